@@ -336,7 +336,11 @@ func regC08(add addFn, p pFn) {
 				if ps[0] == 8 {
 					tier = "thorough"
 				}
-				add(&Instance{Property: "C08", Name: "s2k-e" + itoa(et) + "-p" + itoa(ps[0]) + "-s" + itoa(ps[1]), Entry: "crypto.VH_C08_StringToKey", Params: p("etype", et, "plen", ps[0], "slen", ps[1]), Stubs: cs, Logic: "QF_UFBV", Tier: tier, Reach: []string{"done"},
+				nw := ""
+				if et != 16 {
+					nw = "the iteration count is symbolic over all 2^32 values: the model may pick billions of PBKDF2 iterations, which a native run does not finish"
+				}
+				add(&Instance{Property: "C08", Name: "s2k-e" + itoa(et) + "-p" + itoa(ps[0]) + "-s" + itoa(ps[1]), Entry: "crypto.VH_C08_StringToKey", Params: p("etype", et, "plen", ps[0], "slen", ps[1]), Stubs: cs, Logic: "QF_UFBV", Tier: tier, Reach: []string{"done"}, NoWitness: nw,
 					Bound: "password and salt of the given lengths with arbitrary byte contents; ALL 2^32 iteration-count parameters"})
 			}
 		}
